@@ -7,6 +7,7 @@
 mod addr;
 mod bank;
 mod kv;
+mod route;
 mod sexp;
 mod util;
 mod wasm;
@@ -23,6 +24,7 @@ pub fn exec_case(slice: &str, lines: &[String]) -> Vec<String> {
         "views" => kv::exec_views(lines),
         "bank" => bank::exec_bank(lines),
         "addr" => addr::exec_addr(lines),
+        "route" => route::exec_route(lines),
         s if s.starts_with("wasm") => wasm::exec_wasm(lines),
         _ => panic!("unknown slice {}", slice),
     });
@@ -44,6 +46,7 @@ pub fn gen_case(slice: &str, rng: &mut Rng, thorough: bool) -> Vec<String> {
         "views" => kv::gen_views(rng, thorough),
         "bank" => bank::gen_bank(rng, thorough),
         "addr" => addr::gen_addr(rng, thorough),
+        "route" => route::gen_route(rng, thorough),
         "wasm" => wasm_gen::gen_wasm(rng, thorough),
         "wasm-admin" => wasm_gen2::gen_admin(rng, thorough),
         "wasm-codes" => wasm_gen2::gen_codes(rng, thorough),
